@@ -425,4 +425,93 @@ theorem allEvents_ids_nodup {n : Nat} {s : System} (hinv : Inv n s) (hm : Mono s
     simp only [tagArg, shardMod, h1024, Snel.Gen.C12.shardTagCastBits] at hx' hn
     omega
 
+/-! ### reads planned with a per-shard zone map -/
+
+theorem answer_eq_filter (q : Option Ctx) (sh : Shard) :
+    Shard.answer q sh = sh.events.filter (qmatches q) := by
+  cases q with
+  | none =>
+    have : qmatches none = fun _ => true := rfl
+    simp only [Shard.answer, this]
+    induction sh.events with
+    | nil => rfl
+    | cons x xs ih => simp [← ih]
+  | some c => rfl
+
+theorem mem_arrivals_iff (s : System) (q : Option Ctx) (e : Ev) :
+    e ∈ s.arrivals q ↔ ∃ (i : Nat) (sh : Shard), s.shards[i]? = some sh ∧ e ∈ sh.events ∧ qmatches q e = true := by
+  unfold System.arrivals
+  rw [List.mem_flatMap]
+  constructor
+  · rintro ⟨sh, hsh, he⟩
+    obtain ⟨i, hi⟩ := List.getElem?_of_mem hsh
+    rw [answer_eq_filter, List.mem_filter] at he
+    exact ⟨i, sh, hi, he.1, he.2⟩
+  · rintro ⟨i, sh, hi, he, hq⟩
+    refine ⟨sh, List.mem_of_getElem? hi, ?_⟩
+    rw [answer_eq_filter, List.mem_filter]
+    exact ⟨he, hq⟩
+
+theorem mem_arrivalsPlan_iff (t : Tiered) (q : Option Ctx) (zm : ZoneMap) (e : Ev) :
+    e ∈ t.arrivalsPlan q zm ↔
+      ∃ (i : Nat) (sh : Shard), t.sys.shards[i]? = some sh ∧ e ∈ sh.answerPlan q zm i (t.flushedOf i) := by
+  unfold Tiered.arrivalsPlan Tiered.askedPlan
+  rw [List.mem_flatMap]
+  constructor
+  · rintro ⟨i, _, he⟩
+    split at he
+    · rename_i sh hsh; exact ⟨i, sh, hsh, he⟩
+    · simp at he
+  · rintro ⟨i, sh, hsh, he⟩
+    refine ⟨i, List.mem_range.mpr (List.getElem?_eq_some_iff.mp hsh).1, ?_⟩
+    rw [hsh]; exact he
+
+/-- A row a shard sends under a zone map is a row it would send without one. -/
+theorem answerPlan_subset (q : Option Ctx) (zm : ZoneMap) (i f : Nat) (sh : Shard) (e : Ev)
+    (he : e ∈ sh.answerPlan q zm i f) : e ∈ sh.events ∧ qmatches q e = true := by
+  unfold Shard.answerPlan at he
+  split at he
+  · exact List.mem_filter.mp he
+  · split at he
+    · rw [List.mem_filter, List.mem_append] at he
+      refine ⟨?_, he.2⟩
+      rcases he.1 with h | h
+      · exact List.mem_of_mem_take (List.mem_filter.mp h).1
+      · exact List.mem_of_mem_drop h
+    · rw [List.mem_filter] at he
+      exact ⟨List.mem_of_mem_drop he.1, he.2⟩
+
+/-- In-memory rows are sent under every zone map — also by a shard the map does not mention. -/
+theorem answerPlan_mem (q : Option Ctx) (zm : ZoneMap) (i f : Nat) (sh : Shard) (e : Ev)
+    (he : e ∈ sh.memRows f) (hq : qmatches q e = true) : e ∈ sh.answerPlan q zm i f := by
+  unfold Shard.answerPlan
+  split
+  · exact List.mem_filter.mpr ⟨List.mem_of_mem_drop he, hq⟩
+  · split
+    · exact List.mem_filter.mpr ⟨List.mem_append.mpr (Or.inr he), hq⟩
+    · exact List.mem_filter.mpr ⟨he, hq⟩
+
+/-- The zone map lets the flushed row `e` of shard `i` through. -/
+def ZoneMapAllows (zm : ZoneMap) (i : Nat) (e : Ev) : Prop :=
+  match zm with
+  | none => True
+  | some m => ∃ allowed, m.lookup i = some allowed ∧ allowed e = true
+
+theorem answerPlan_seg (q : Option Ctx) (zm : ZoneMap) (i f : Nat) (sh : Shard) (e : Ev)
+    (he : e ∈ sh.segRows f) (hq : qmatches q e = true) (ha : ZoneMapAllows zm i e) :
+    e ∈ sh.answerPlan q zm i f := by
+  unfold Shard.answerPlan
+  cases zm with
+  | none => exact List.mem_filter.mpr ⟨List.mem_of_mem_take he, hq⟩
+  | some m =>
+    obtain ⟨allowed, hl, hall⟩ := ha
+    simp only [hl]
+    exact List.mem_filter.mpr ⟨List.mem_append.mpr (Or.inl (List.mem_filter.mpr ⟨he, hall⟩)), hq⟩
+
+theorem mem_seg_or_mem (sh : Shard) (f : Nat) (e : Ev) (he : e ∈ sh.events) :
+    e ∈ sh.segRows f ∨ e ∈ sh.memRows f := by
+  unfold Shard.segRows Shard.memRows
+  rw [← List.take_append_drop f sh.events] at he
+  exact List.mem_append.mp he
+
 end Snel.Route
